@@ -45,11 +45,26 @@ class _Identity:
         return f if f is not None else self
 
 
+def _lru_decorator():
+    """functools.lru_cache(...) applied by a call: the result is a memoising copy of the function (the original stays uncached)"""
+
+    def decorate(f=None, *a, **k):
+        import copy
+
+        if type(f).__name__ == "PFunc":
+            g = copy.copy(f)
+            g.memo = {}
+            return g
+        return f if f is not None else decorate
+
+    return decorate
+
+
 def install(it):
     M = it.models
     M[warnings.warn] = lambda it_, *a, **k: None
     M[importlib.import_module] = lambda it_, name, package=None: it_.loader.import_module(name)
-    M[functools.lru_cache] = lambda it_, *a, **k: (a[0] if a and not isinstance(a[0], (int, type(None))) else _Identity())
+    M[functools.lru_cache] = lambda it_, *a, **k: (_lru_decorator()(a[0]) if a and not isinstance(a[0], (int, type(None))) else _lru_decorator())
     M[functools.wraps] = lambda it_, *a, **k: _Identity()
     note("lru_cache", "functools.lru_cache memoises on concrete hashable arguments without eviction; with symbolic arguments the function body is executed (cached functions are assumed deterministic)")
     note("logging/warnings", "logging and warnings calls have no effect on the properties and are skipped")
